@@ -10,8 +10,8 @@ instantiate it with `κ = Paths.P`, `ρ = String`, `res doc rel = Paths.resolve 
 Fragment names are `Nat`-coded (DESIGN §2.4). A definition of a file is identified by its index in the file's
 definition list (what the repaired code keys its `imported` set by).
 
-The import resolver is the code AFTER the `fix:` commit for C13 (two sets: `expanded` files and `imported`
-(file, definition index) pairs). The pre-repair algorithm (one `visited` set) is kept at the end of the file in
+The import resolver is the code AFTER the `fix:` commit for C13 (7cb51d3: `expanded` files, `requested` (file, definition
+index) pairs, `finished` files in post-order; the requested definitions are appended at the end). The pre-repair algorithm (one `visited` set) is kept at the end of the file in
 namespace `Legacy`, only to state the kernel-checked witnesses of the three defects it had.
 Everything is structurally recursive (explicit fuel for the depth-first traversal) so that `decide` can evaluate it.
 -/
@@ -120,12 +120,13 @@ inductive Res (κ ρ α : Type) where
 /-- a definition of some file: (resolved path of the file, index in its definition list) -/
 abbrev DefId (κ : Type) := κ × Nat
 
-/-- state of the traversal: `expanded` = files whose own import lines have been (or are being) processed,
-    `imported` = definitions already present in the result, `out` = definitions appended so far (in order) -/
+/-- state of the traversal (`ImportState`): `expanded` = files whose own import lines have been (or are being)
+    processed, `requested` = definitions asked for by some processed import line, `finished` = imported files in the
+    order in which the processing of their own import lines finished -/
 structure St (κ : Type) where
   expanded : List κ
-  imported : List (DefId κ)
-  out : List (DefId κ)
+  requested : List (DefId κ)
+  finished : List κ
   deriving Repr
 
 def isFragNamed (n : Nat) : Def → Bool
@@ -152,13 +153,6 @@ def missingTarget (t : Targets) (defs : List Def) : Option Ident :=
   | .wildcard => none
   | .specific ids => ids.find? (fun id => !(defs.any (isFragNamed id.name)))
 
-/-- `if imported.insert((path, idx)) { definitions.push(def) }` for each selected index -/
-def pushAll (p : κ) : List Nat → St κ → St κ
-  | [], st => st
-  | i :: is, st =>
-    if (p, i) ∈ st.imported then pushAll p is st
-    else pushAll p is { st with imported := (p, i) :: st.imported, out := st.out ++ [(p, i)] }
-
 variable (res : κ → ρ → κ) (fs : FS κ ρ)
 
 /-- body of the `for import in extensions.imports` loop; `expand` is the recursive call -/
@@ -169,11 +163,13 @@ def step (expand : κ → List (Import ρ) → St κ → Res κ ρ (St κ)) (doc
   | none => .err (.fileNotFound doc imp.rel imp.line)
   | some file =>
     match (if p ∈ st.expanded then Res.ok st
-           else expand p file.imports { st with expanded := p :: st.expanded }) with
+           else match expand p file.imports { st with expanded := p :: st.expanded } with
+             | .ok st' => Res.ok { st' with finished := st'.finished ++ [p] }
+             | r => r) with
     | .ok st1 =>
       match missingTarget imp.targets file.defs with
       | some id => .err (.fragmentNotFound doc imp.rel id)
-      | none => .ok (pushAll p (selectedIdx imp.targets file.defs) st1)
+      | none => .ok { st1 with requested := st1.requested ++ (selectedIdx imp.targets file.defs).map (fun i => (p, i)) }
     | .err e => .err e
     | .outOfFuel => .outOfFuel
 
@@ -196,14 +192,23 @@ def expandFuel : Nat → κ → List (Import ρ) → St κ → Res κ ρ (St κ)
 def rootIds (root : κ) (rootFile : File ρ) : List (DefId κ) :=
   (List.range rootFile.defs.length).map (fun i => (root, i))
 
-def initSt (root : κ) (rootFile : File ρ) : St κ :=
-  { expanded := [root], imported := rootIds root rootFile, out := [] }
+def initSt (root : κ) : St κ :=
+  { expanded := [root], requested := [], finished := [] }
+
+/-- the requested definitions of one finished file, in file order -/
+def emitFile (requested : List (DefId κ)) (p : κ) : List (DefId κ) :=
+  match fs.lookup p with
+  | none => []
+  | some file => ((List.range file.defs.length).filter (fun i => (p, i) ∈ requested)).map (fun i => (p, i))
+
+/-- the final loop of `resolve_operation_imports`: finished files in order, requested definitions in file order -/
+def emit (st : St κ) : List (DefId κ) := st.finished.flatMap (emitFile fs st.requested)
 
 /-- `resolve_operation_imports((root, rootFile), fs)`: the definitions appended after the root's own ones.
     `root` is the normalised path of the root document. Depth never exceeds the number of files. -/
 def resolve (root : κ) (rootFile : File ρ) : Res κ ρ (List (DefId κ)) :=
-  match expandFuel res fs (fs.length + 1) root rootFile.imports (initSt root rootFile) with
-  | .ok st => .ok st.out
+  match expandFuel res fs (fs.length + 1) root rootFile.imports (initSt root) with
+  | .ok st => .ok (emit fs st)
   | .err e => .err e
   | .outOfFuel => .outOfFuel
 
